@@ -58,6 +58,49 @@ type Viol struct {
 	Col   int    `json:"col"`
 	ERow  int    `json:"erow"`
 	ECol  int    `json:"ecol"`
+	// HeadFallback: a use-assignment-operator violation located at a rule head whose operator is not
+	// the last non-blank character before the value on the value's row (documented fallback of the rule)
+	HeadFallback bool `json:"head_fallback,omitempty"`
+}
+
+// markFallbacks classifies the use-assignment-operator violations left after fixing
+func markFallbacks(files map[string]string, vs []Viol) {
+	for i := range vs {
+		v := &vs[i]
+		if v.Title != ruleNames["uao"] {
+			continue
+		}
+		content, ok := files[v.File]
+		if !ok {
+			continue
+		}
+		opts := ast.ParserOptions{RegoVersion: rules.RegoVersionFromVersionsMap(vmapAbs(), v.File, ast.RegoV1)}
+		m, err := ast.ParseModuleWithOpts(v.File, content, opts)
+		if err != nil {
+			continue
+		}
+		lines := strings.Split(strings.ReplaceAll(content, "\r\n", "\n"), "\n")
+		for _, r := range m.Rules {
+			for x := r; x != nil; x = x.Else {
+				h := x.Head
+				if h.Location == nil || h.Location.Row != v.Row || h.Location.Col != v.Col || h.Value == nil || h.Value.Location == nil {
+					continue
+				}
+				vr, vc := h.Value.Location.Row, h.Value.Location.Col
+				if vr < 1 || vr > len(lines) {
+					continue
+				}
+				rs := []rune(lines[vr-1])
+				if vc-1 > len(rs) {
+					continue
+				}
+				before := strings.TrimRight(string(rs[:vc-1]), " \t")
+				if !strings.HasSuffix(before, "=") {
+					v.HeadFallback = true
+				}
+			}
+		}
+	}
 }
 
 type Step struct {
@@ -360,6 +403,7 @@ func runSet(id int, src string, files map[string]string, rs []string, mode strin
 		if err != nil {
 			c.RelintErr = trunc(err.Error())
 		}
+		markFallbacks(o.final, rv)
 		c.Relint = rv
 		o2 := runFix(o.final, long, mode, 30, 240*time.Second)
 		if o2.errClass != "" {
